@@ -45,9 +45,17 @@ struct BmpStream : Family {
 		int bits = BITS[r.below(3)];
 		uint64_t w = r.chance(1, 10) ? 0 : r.below(thorough ? 200 : 70);
 		int64_t h = static_cast<int64_t>(r.below(thorough ? 40 : 14));
+		if (r.chance(1, thorough ? 60 : 150)) {
+			// pixel data larger than the library's 128 KiB stream-copy chunk, with padded rows of a pitch that does not divide it
+			static const uint64_t BW[][2] = {{1001, 8}, {363, 8}, {2001, 4}, {9001, 1}, {1025, 8}, {641, 8}};
+			size_t k = r.below(6);
+			w = BW[k][0]; bits = static_cast<int>(BW[k][1]);
+			uint64_t pitch = ((w * static_cast<uint64_t>(bits) + 7) / 8 + 3) & ~3ull;
+			h = static_cast<int64_t>(131072 / pitch + 3 + r.below(40));
+		}
 		if (r.chance(1, 2)) h = -h;
 		uint64_t used = r.chance(1, 2) ? 0 : r.range(1, 1ull << bits);
-		b.set("seed", hex64(r.next())).set("bits", static_cast<uint64_t>(bits)).set("w", w).set("h", std::to_string(h)).set("used", used).set("junkhdr", r.below(2));
+		b.set("seed", hex64(r.next())).set("bits", static_cast<uint64_t>(bits)).set("w", w).set("h", std::to_string(h)).set("used", used).set("junkhdr", r.below(2)).set("rowpool", r.chance(1, 3) ? 1 + r.below(3) : 0);
 		p.world.push_back(b);
 		size_t nops = static_cast<size_t>(r.range(1, 6));
 		for (size_t i = 0; i < nops; ++i) {
@@ -180,7 +188,7 @@ struct TilesetStream : Family {
 		p.setenv("backend", BK[r.below(4)]);
 		p.setenv("wbackend", r.chance(1, 2) ? "dyn" : r.chance(1, 2) ? "file" : "sim");
 		Line t = mkline("world", "tileset");
-		t.set("seed", hex64(r.next())).set("tiles", r.chance(1, 8) ? 0 : r.below(thorough ? 9 : 5)).set("bottomup", r.below(2));
+		t.set("seed", hex64(r.next())).set("tiles", r.chance(1, 8) ? 0 : r.below(thorough ? 9 : 5)).set("bottomup", r.below(2)).set("rowpool", r.chance(1, 3) ? 1 + r.below(3) : 0);
 		p.world.push_back(t);
 		size_t nops = static_cast<size_t>(r.range(3, 12));
 		static const char* SIG[] = {"PBMP", "BM", "PBMp", "pBMP", "PBM", "PBMPX", "head", "rnd"};
